@@ -98,6 +98,75 @@ fn dump_no_env(w: &World) -> Vec<String> {
     dump(w).into_iter().filter(|l| !l.starts_with("env ")).collect()
 }
 
+/// complete exit of holder `a` on a clone of `world`: unbond (all but one unit), close the batch after
+/// the epoch period, wait the unbonding period, withdraw.  With `idle_broken` the clone first idles for
+/// more than a day with the swap and oracle contracts failing.  Returns `ok|err|skip STAGE REASON`.
+fn exit_probe(world: &World, tok: &str, a: &str, b: u128, epoch: u64, unbonding: u64, idle_broken: bool) -> String {
+    let mut w = world.clone();
+    if idle_broken {
+        w.swapmode = SwapMode::Fail;
+        w.oraclemode = OracleMode::Fail;
+        let (ok, _) = try_op(&mut w, "advance 86500");
+        if !ok {
+            return "skip advance clock".to_string();
+        }
+    }
+    let first = if b > 1 { b - 1 } else { b };
+    let (ok, why) = try_op(&mut w, &format!("cw {} {} send hub {} unbond", tok, a, first));
+    if !ok {
+        return format!("err unbond{} {}", if idle_broken { "(idle, plumbing failing)" } else { "" }, why);
+    }
+    // the first unbond after the epoch period must undelegate the batch holding the request
+    let batch_before: u64 = field(&dump(&w), "hub.batch", 0).and_then(|s| s.parse().ok()).unwrap_or(0);
+    let (ok, _) = try_op(&mut w, &format!("advance {}", epoch + 1));
+    if !ok {
+        return "skip advance clock".to_string();
+    }
+    let mut closed = field(&dump(&w), "hub.batch", 0).and_then(|s| s.parse::<u64>().ok()).unwrap_or(0) > batch_before;
+    if !closed {
+        if b > 1 {
+            let (ok, why) = try_op(&mut w, &format!("cw {} {} send hub 1 unbond", tok, a));
+            if !ok {
+                return format!("err close{} {}", if idle_broken { "(idle, plumbing failing)" } else { "" }, why);
+            }
+            closed = field(&dump(&w), "hub.batch", 0).and_then(|s| s.parse::<u64>().ok()).unwrap_or(0) > batch_before;
+            if !closed {
+                return "err close the unbond after the epoch period did not undelegate the batch".to_string();
+            }
+        } else {
+            return "skip close single-unit holder".to_string();
+        }
+    }
+    let wait = w.ut.max(unbonding) + 1;
+    let (ok, _) = try_op(&mut w, &format!("advance {}", wait));
+    if !ok {
+        return "skip advance clock".to_string();
+    }
+    // worth of the matured claims as the hub itself reports it
+    let wd: u128 = dump(&w)
+        .iter()
+        .filter_map(|l| l.strip_prefix(&format!("hub.wd {} ", a)).map(|s| s.to_string()))
+        .next()
+        .and_then(|s| s.parse().ok())
+        .unwrap_or(0);
+    // the WithdrawableUnbonded query prices matured claims at the rates BEFORE the release; if
+    // fewer coins arrived than the matured batches expect (slashing of unbonding stake earlier
+    // in the history) the release lowers them, so `wd` is no lower bound then.  Without a
+    // shortfall each claim entry loses at most one unit to re-flooring.
+    let dl = dump(&w);
+    let (shortfall, entries) = release_shortfall(&dl, a, w.now, unbonding);
+    let (ok, why) = try_op(&mut w, &format!("hub {} withdraw", a));
+    if ok {
+        "ok withdraw -".to_string()
+    } else if shortfall || wd < 2 * entries + 1 {
+        format!("skip withdraw wd={} entries={} shortfall={} {}", wd, entries, shortfall, why)
+    } else if wd == 0 {
+        format!("skip withdraw claim worth nothing: {}", why)
+    } else {
+        format!("err withdraw wd={} {}", wd, why)
+    }
+}
+
 pub fn run<W: Write>(text: &str, stride: u64, out: &mut W) -> Result<(), String> {
     let mut ops: Vec<Op> = vec![];
     for (ln, line) in text.lines().enumerate() {
@@ -133,72 +202,17 @@ pub fn run<W: Write>(text: &str, stride: u64, out: &mut W) -> Result<(), String>
                             .map_err(|e| e.to_string())?;
                     }
                 }
-                for (a, b) in hs.iter().take(4) {
+                for (n, (a, b)) in hs.iter().take(4).enumerate() {
                     if a == "hub" || epoch > 10_000_000 || unbonding > 10_000_000 {
                         continue;
                     }
-                    let mut w = world.clone();
-                    let first = if *b > 1 { *b - 1 } else { *b };
-                    let (ok, why) = try_op(&mut w, &format!("cw {} {} send hub {} unbond", tok, a, first));
-                    if !ok {
-                        writeln!(out, "probe {} exit {} {} err unbond {}", index, tok, a, why).map_err(|e| e.to_string())?;
-                        continue;
-                    }
-                    // the first unbond after the epoch period must undelegate the batch holding the request
-                    let batch_before: u64 = field(&dump(&w), "hub.batch", 0).and_then(|s| s.parse().ok()).unwrap_or(0);
-                    let (ok, _) = try_op(&mut w, &format!("advance {}", epoch + 1));
-                    if !ok {
-                        writeln!(out, "probe {} exit {} {} skip advance clock", index, tok, a).map_err(|e| e.to_string())?;
-                        continue;
-                    }
-                    let mut closed = field(&dump(&w), "hub.batch", 0).and_then(|s| s.parse::<u64>().ok()).unwrap_or(0) > batch_before;
-                    if !closed {
-                        if *b > 1 {
-                            let (ok, why) = try_op(&mut w, &format!("cw {} {} send hub 1 unbond", tok, a));
-                            if !ok {
-                                writeln!(out, "probe {} exit {} {} err close {}", index, tok, a, why).map_err(|e| e.to_string())?;
-                                continue;
-                            }
-                            closed = field(&dump(&w), "hub.batch", 0).and_then(|s| s.parse::<u64>().ok()).unwrap_or(0) > batch_before;
-                            if !closed {
-                                writeln!(out, "probe {} exit {} {} err close the unbond after the epoch period did not undelegate the batch", index, tok, a)
-                                    .map_err(|e| e.to_string())?;
-                                continue;
-                            }
-                        } else {
-                            writeln!(out, "probe {} exit {} {} skip close single-unit holder", index, tok, a).map_err(|e| e.to_string())?;
-                            continue;
-                        }
-                    }
-                    let wait = w.ut.max(unbonding) + 1;
-                    let (ok, _) = try_op(&mut w, &format!("advance {}", wait));
-                    if !ok {
-                        writeln!(out, "probe {} exit {} {} skip advance clock", index, tok, a).map_err(|e| e.to_string())?;
-                        continue;
-                    }
-                    // worth of the matured claims as the hub itself reports it
-                    let wd: u128 = dump(&w)
-                        .iter()
-                        .filter_map(|l| l.strip_prefix(&format!("hub.wd {} ", a)).map(|s| s.to_string()))
-                        .next()
-                        .and_then(|s| s.parse().ok())
-                        .unwrap_or(0);
-                    // the WithdrawableUnbonded query prices matured claims at the rates BEFORE the release; if
-                    // fewer coins arrived than the matured batches expect (slashing of unbonding stake earlier
-                    // in the history) the release lowers them, so `wd` is no lower bound then.  Without a
-                    // shortfall each claim entry loses at most one unit to re-flooring.
-                    let dl = dump(&w);
-                    let (shortfall, entries) = release_shortfall(&dl, a, w.now, unbonding);
-                    let (ok, why) = try_op(&mut w, &format!("hub {} withdraw", a));
-                    if ok {
-                        writeln!(out, "probe {} exit {} {} ok withdraw -", index, tok, a).map_err(|e| e.to_string())?;
-                    } else if shortfall || wd < 2 * entries + 1 {
-                        writeln!(out, "probe {} exit {} {} skip withdraw wd={} entries={} shortfall={} {}", index, tok, a, wd, entries, shortfall, why)
-                            .map_err(|e| e.to_string())?;
-                    } else if wd == 0 {
-                        writeln!(out, "probe {} exit {} {} skip withdraw claim worth nothing: {}", index, tok, a, why).map_err(|e| e.to_string())?;
-                    } else {
-                        writeln!(out, "probe {} exit {} {} err withdraw wd={} {}", index, tok, a, wd, why).map_err(|e| e.to_string())?;
+                    let v = exit_probe(&world, tok, a, *b, epoch, unbonding, false);
+                    writeln!(out, "probe {} exit {} {} {}", index, tok, a, v).map_err(|e| e.to_string())?;
+                    // the same exit after more than a day without any index update and with the swap and
+                    // oracle contracts failing (first holder of each token only)
+                    if n == 0 {
+                        let v = exit_probe(&world, tok, a, *b, epoch, unbonding, true);
+                        writeln!(out, "probe {} exit {} {} {}", index, tok, a, v).map_err(|e| e.to_string())?;
                     }
                 }
             }
